@@ -145,7 +145,68 @@ func TestVerifReplayC17(t *testing.T) {
 			}
 		}
 	}
-	fmt.Println("REPLAY-NOT-REPRODUCED bounded search over documents of length <= 3 found no failing input")
+	// histories of two edits on one server-side document (state carried from one edit to the next)
+	type edit struct {
+		sl, sc, el, ec uint32
+		with           string
+	}
+	hist := 0
+	for _, doc := range docs {
+		if len(doc) > 2 {
+			continue
+		}
+		lines0 := strings.Split(doc, "\n")
+		var firsts []edit
+		n0 := uint32(len(lines0))
+		for sl := uint32(0); sl <= n0; sl++ {
+			for el := sl; el <= n0; el++ {
+				for sc := uint32(0); sc <= 2; sc++ {
+					for ec := uint32(0); ec <= 2; ec++ {
+						for _, w := range []string{"", "x", "\n", "xyz\nuv\nw", "pq"} {
+							firsts = append(firsts, edit{sl, sc, el, ec, w})
+						}
+					}
+				}
+			}
+		}
+		for _, e1 := range firsts {
+			want1, ok := verifOracle(lines0, false, e1.sl, e1.sc, e1.el, e1.ec, e1.with)
+			if !ok {
+				continue
+			}
+			lines1 := strings.Split(want1, "\n")
+			n1 := uint32(len(lines1))
+			for sl := uint32(0); sl <= n1; sl++ {
+				for el := sl; el <= n1; el++ {
+					for sc := uint32(0); sc <= 4; sc += 2 {
+						for ec := sc; ec <= 4; ec += 2 {
+							for _, w := range []string{"", "!", "\n"} {
+								want2, ok := verifOracle(lines1, false, sl, sc, el, ec, w)
+								if !ok {
+									continue
+								}
+								hist++
+								d := &Document{Lines: append([]string(nil), lines0...)}
+								var got string
+								p := func() (p interface{}) {
+									defer func() { p = recover() }()
+									d.Apply(&lsp.Range{Start: lsp.Position{Line: e1.sl, Character: e1.sc}, End: lsp.Position{Line: e1.el, Character: e1.ec}}, e1.with)
+									d.Apply(&lsp.Range{Start: lsp.Position{Line: sl, Character: sc}, End: lsp.Position{Line: el, Character: ec}}, w)
+									got = d.String()
+									return nil
+								}()
+								if p != nil || got != want2 {
+									fmt.Printf("REPLAY-CONFIRMED history: document %q, edit %d:%d-%d:%d <- %q, then edit %d:%d-%d:%d <- %q: server copy %q (panic=%v), editor %q\n", doc, e1.sl, e1.sc, e1.el, e1.ec, e1.with, sl, sc, el, ec, w, got, p, want2)
+									return
+								}
+							}
+						}
+					}
+				}
+			}
+		}
+	}
+	fmt.Printf("REPLAY-NOT-REPRODUCED bounded search over documents of length <= 3 (single edits) and %d two-edit histories found no failing input\n", hist)
 }
 `
 
